@@ -270,6 +270,7 @@ fn check_points(
     order_is_final: bool, show_axes: &[usize],
 ) -> usize {
     let mut bad = 0;
+    let rules_t = intersected(rules);
     let has_empty_region = rules.iter().any(|r| r.boxes.is_empty());
     let has_axis_twice = rules.iter().any(|r| r.boxes.iter().any(|b| (0..b.len()).any(|i| (0..i).any(|j| b[i].0 == b[j].0))));
     for p in pts {
@@ -302,7 +303,7 @@ fn check_points(
             "later-rule-wins-conflicting-subs"
         } else if inter == Interf::Chain {
             "chained-subs-not-applied-in-rule-order"
-        } else if touching(p, rules, u) {
+        } else if touching(p, &rules_t, u) {
             "touching-edges-location-loses-rule"
         } else if let Some(k) = collision_at(p) {
             k
@@ -338,10 +339,15 @@ fn coq_submap(m: &SubMap) -> String {
     coq_list(m, |(a, b)| format!("({}, {})", coq_n(*a as u64), coq_n(*b as u64)))
 }
 fn coq_rules(rules: &[RuleN], u: i64) -> String {
+    coq_rules_with(rules, u, "mk_box")
+}
+/// `ctor` is the model function that turns a list of conditions into an NBox: `mk_box` (NBox::insert
+/// one after the other, the public API) or `box_of_conditions` (what the fontbe provider does)
+fn coq_rules_with(rules: &[RuleN], u: i64, ctor: &str) -> String {
     coq_list(rules, |r| {
         format!(
             "({}, {})",
-            coq_list(&r.boxes, |b| format!("mk_box {} {}", coq_z(u), coq_list(b, |(a, mn, mx)| format!("({}, ({}, {}))", coq_n(*a as u64 + 1), coq_oz(mn), coq_oz(mx))))),
+            coq_list(&r.boxes, |b| format!("{ctor} {} {}", coq_z(u), coq_list(b, |(a, mn, mx)| format!("({}, ({}, {}))", coq_n(*a as u64 + 1), coq_oz(mn), coq_oz(mx))))),
             coq_submap(&r.subs)
         )
     })
@@ -458,6 +464,30 @@ fn gen_rules(rng: &mut Rng, cfg: &GenCfg, n: usize, messy: bool, allow_empty_reg
         rules.push(RuleN { boxes, subs });
     }
     rules
+}
+
+/// the condition sets with every axis mentioned once: the ranges of a repeated axis intersected
+/// (all conditions of a set must hold)
+fn intersected(rules: &[RuleN]) -> Vec<RuleN> {
+    rules
+        .iter()
+        .map(|r| RuleN {
+            boxes: r
+                .boxes
+                .iter()
+                .map(|b| {
+                    let mut m: BTreeMap<usize, (Option<i64>, Option<i64>)> = BTreeMap::new();
+                    for (a, mn, mx) in b {
+                        let e = m.entry(*a).or_insert((*mn, *mx));
+                        e.0 = match (e.0, *mn) { (Some(x), Some(y)) => Some(x.max(y)), (x, y) => x.or(y) };
+                        e.1 = match (e.1, *mx) { (Some(x), Some(y)) => Some(x.min(y)), (x, y) => x.or(y) };
+                    }
+                    m.into_iter().map(|(a, (mn, mx))| (a, mn, mx)).collect()
+                })
+                .collect(),
+            subs: r.subs.clone(),
+        })
+        .collect()
 }
 
 fn overlaps_somewhere(rules: &[RuleN], pts: &[Vec<i64>], u: i64) -> bool {
@@ -830,7 +860,7 @@ fn stage_e_case(rng: &mut Rng, t: &mut Tally, id: &mut usize, idx: usize, kind: 
     let env = coq_list(&c.axes.iter().enumerate().collect::<Vec<_>>(), |(i, a)| {
         format!("({}, {{| ax_index := {}; ax_minq := {}; ax_maxq := {} |}})", coq_n(a.tag as u64 + 1), coq_n(*i as u64), coq_z(a.dom().0 / KQ), coq_z(a.dom().1 / KQ))
     });
-    let model = format!("compile_rules {} {} {}", coq_z(UE), env, coq_rules(&rules, UE));
+    let model = format!("compile_rules {} {} {}", coq_z(UE), env, coq_rules_with(&rules, UE, "box_of_conditions"));
     *t.kinds.entry(kind.to_string()).or_insert(0) += 1;
     let nontrivial = rules.len() >= 2 && overlaps_somewhere(&rules, &pts, UE);
     let mut finish = |expect: String, extra: serde_json::Value| {
@@ -858,7 +888,8 @@ fn stage_e_case(rng: &mut Rng, t: &mut Tally, id: &mut usize, idx: usize, kind: 
         }
     };
     // the real overlay on the same rules, to recognise ConditionSet collisions
-    let items = run_overlay(&rules, UE).unwrap_or_default();
+    let rules_i = intersected(&rules);
+    let items = run_overlay(&rules_i, UE).unwrap_or_default();
     let dropped = |a: usize, mn: i64, mx: i64| c.axes.iter().any(|ax| ax.tag == a && (q14(ax.dom().0), q14(ax.dom().1)) == (q14(mn), q14(mx)));
     let cs_of = |b: &BoxN| -> Vec<(usize, i64, i64)> { b.iter().filter(|(a, mn, mx)| !dropped(*a, *mn, *mx)).map(|(a, mn, mx)| (*a, q14(*mn), q14(*mx))).collect() };
     let collision_at = |p: &[i64]| -> Option<&'static str> {
